@@ -247,7 +247,7 @@ def run_simfd(c):
     mesh, dim, L = build_mesh(c)
     mat = make_law(c["law"], dim, c["params"], c.get("T1"), c.get("T2"))
     mat.eta = c.get("eta", 0.0)
-    simu = Simulations.HyperElastic(mesh, mat, verbosity=False)
+    simu = Simulations.HyperElastic(mesh, mat, absTol=1e-9, maxIter=40, verbosity=False)
     simu.rho = c["rho"]
     try:
         apply_ops(simu, c["ops"])
@@ -258,8 +258,31 @@ def run_simfd(c):
     r = np.asarray(c["rand"], dtype=float)
     take = lambda k: np.resize(r[k::4], n)
     simu._Set_solutions(pt, take(0) * c["amp"], take(1) * 10 * c["amp"], take(2) * 10 * c["amp"])
+    # history before the check: solves with or without Save_Iter, rewinds (free body: the mass term keeps A regular)
+    for op in c.get("presteps", []):
+        if op == "solve":
+            simu.Solve()
+        elif op == "save":
+            simu.Save_Iter()
+        elif op[0] == "set_iter":
+            simu.Set_Iter(op[1])
     u_np1 = simu._Get_u_n(pt) + take(3) * c["amp"]
     out = {"id": c["id"], "algo": str(simu.algo), "stress": str(simu.stressType)}
+    if c.get("presteps"):
+        # a simulation with this history must assemble what a fresh one in the same state assembles
+        fresh = Simulations.HyperElastic(mesh, mat, verbosity=False)
+        fresh.rho = c["rho"]
+        apply_ops(fresh, c["ops"])
+        fresh._Set_solutions(pt, simu._Get_u_n(pt).copy(), simu._Get_v_n(pt).copy(), simu._Get_a_n(pt).copy())
+        fresh._Simu__Solver_Set_Newton_Raphson_current_solution(u_np1.copy())
+        simu._Simu__Solver_Set_Newton_Raphson_current_solution(u_np1.copy())
+        ra, rb = simu.Construct_local_matrix_system(pt), fresh.Construct_local_matrix_system(pt)
+        dK = dF = 0.0
+        for (ga, a), (gb, b) in zip(ra.items(), rb.items()):
+            dK = max(dK, rel(np.asarray(a[0]), np.asarray(b[0])))
+            dF = max(dF, rel(np.asarray(a[3]), np.asarray(b[3])))
+        out["sim:K same as fresh simulation"] = dK
+        out["sim:F same as fresh simulation"] = dF
 
     def local(u):
         simu._Simu__Solver_Set_Newton_Raphson_current_solution(u.copy())
@@ -338,7 +361,7 @@ def run_drift(c):
     if c["stress"] == "gonzalez":
         simu.Solver_Set_Stress(simu.StressType.gonzalez)
     elif c["stress"] == "quadrature":
-        simu.Solver_Set_Stress(simu.StressType.quadrature, nPoints=c.get("nPoints", 9))
+        simu.Solver_Set_Stress(simu.StressType.quadrature, nPoints=c.get("nPoints", 9), energyTol=c.get("energyTol"))
     pt = simu.problemType
     # initial condition: at rest in the reference placement with a smooth transverse velocity
     v0 = np.zeros(mesh.Nn * dim)
@@ -348,18 +371,32 @@ def run_drift(c):
     if dim == 3:
         v0[2::dim] = 0.5 * amp * (X[:, 0] / L[0]) ** 2
     simu._Set_solutions(pt, np.zeros(mesh.Nn * dim), v0, np.zeros(mesh.Nn * dim))
-    energies = []
+    # step program: "solve" | "save" | ["set_iter", k] | ["dt", value]; default = save after every solve
+    program = c.get("program") or ["solve", "save"] * c["nStep"]
+    snaps = []          # per solve: (v_before, W_before, v_after, W_after)
     M = None
-    for it in range(c["nStep"]):
-        simu.Solve()
-        simu.Save_Iter()
-        if M is None:
-            _, _, M, _ = simu.Get_K_C_M_F(pt)
-            energies.append(0.5 * float(v0 @ (M @ v0)))      # t = 0: W = 0 in the reference placement
-        v = simu._Get_v_n(pt)
-        energies.append(0.5 * float(v @ (M @ v)) + float(simu._Calc_W()))
+    for op in program:
+        if op == "solve":
+            vb, Wb = simu._Get_v_n(pt).copy(), float(simu._Calc_W())
+            simu.Solve()
+            if M is None:
+                _, _, M, _ = simu.Get_K_C_M_F(pt)
+            snaps.append((vb, Wb, simu._Get_v_n(pt).copy(), float(simu._Calc_W())))
+        elif op == "save":
+            simu.Save_Iter()
+        elif op[0] == "set_iter":
+            simu.Set_Iter(op[1])
+        elif op[0] == "dt":
+            simu.Solver_Set_Hyperbolic_Algorithm(op[1], algo=getattr(AlgoType, c["algo"]))
+        else:
+            raise ValueError(op)
+    ke = lambda v: 0.5 * float(v @ (M @ v))
+    steps = [(ke(vb) + Wb, ke(va) + Wa) for vb, Wb, va, Wa in snaps]
+    E0 = steps[0][0]
+    energies = [E0] + [a for _, a in steps]
+    step_defect = max(abs(a - b) for b, a in steps) / abs(E0)
     umax = float(np.abs(simu.displacement).max())
-    return {"id": c["id"], "energies": energies, "umax": umax, "W_end": float(simu._Calc_W())}
+    return {"id": c["id"], "energies": energies, "step_defect": step_defect, "nsolves": len(steps), "umax": umax, "W_end": float(simu._Calc_W())}
 
 
 def main():
